@@ -146,7 +146,7 @@ def _configs(tier, salts):
                                     out.append((cfg, {"depth": depth, "letters": LETTERS if depth < 2 else ["best", "x3", "nan"]}))
         # auto-detected restarts (noisy objective, short history) under hard and soft restarts, every budget: the exit
         # 'Auto-detected restart' is one more of the ~30 exit sites of the main loop
-        if salt == 0 or tier == "thorough":
+        if salt == 0 or (tier == "thorough" and salt == 1):
             AD = {"restarts.auto_detect.history": 3, "restarts.auto_detect.min_chgJ_slope": 0.0, "restarts.auto_detect.min_correl": 0.0}
             for rmode in ("hard_old", "hard_new", "soft"):
                 for prob in ("rosen", "nzr"):
@@ -159,7 +159,7 @@ def _configs(tier, salts):
                             out.append((cfg, {"depth": 0}))
         # sample averaging with a user tolerance, every budget (the budget ends inside a point's samples for most of them):
         # the small-objective test is made on the mean of the samples actually taken
-        if salt == 0 or tier == "thorough":
+        if salt == 0 or (tier == "thorough" and salt == 1):
             for prob in ("rosen", "nzr"):
                 for ns in ("const2", "const3", "iter%3+1"):
                     for abs_tol in (1e-12, 1.0, 8.0):
@@ -172,11 +172,11 @@ def _configs(tier, salts):
                                                     nsamples=ns, user_params=cfgs.user_params(3, up), tag_restart=rmode + "_avg")
                                 out.append((cfg, {"depth": 0}))
         # geometries whose trust-region step can increase the model (the warning / error exits of calculate_ratio)
-        if salt == 0 or tier == "thorough":
+        if salt == 0 or (tier == "thorough" and salt == 1):
             for cfg, plan in cfgs.tr_increase_cfgs(salt, restarts=("none", "hard_new", "soft")):
                 out.append((dict(cfg, tag_restart="trinc"), plan))
         # the broad option bank over many budgets
-        if salt == 0 or tier == "thorough":
+        if salt == 0 or (tier == "thorough" and salt == 1):
             for name, cfg in cfgs.broad_cfgs(salt=salt, budgets=tuple(range(2, 62, 3 if tier == "quick" else 1)), reg_budgets=(3, 8),
                                              overlays=("avg", "soft") if tier == "thorough" else ("soft",)):
                 cfg = dict(cfg, tag_restart="broad")
